@@ -153,10 +153,6 @@ var ghostRecNext func(d []byte, o int) int
 //@   trusted
 //@   modifies t.metadataLoaded, t.filter, t.searchIndex
 
-//@ func ext:bloom.Filter.MightHave
-//@   trusted
-//@   modifies nothing
-
 // Table.Get. For C07 a table is a function of its key (assumed clauses, as before; there the lazy
 // load of the table's own footer on first use is not treated as a change of state). Record level,
 // proved: on a well-formed file the scan visits records only (the cursor is at a record start
